@@ -897,7 +897,7 @@ func commandGate(w *World, ctor *Func) (*Func, map[int64]string, int64, bool) {
 	walkNoLit(ctor.Body, func(n ast.Node) bool {
 		if call, ok := n.(*ast.CallExpr); ok {
 			if callee := calleeOf(info, call); callee != nil {
-				if g := w.byObj[callee]; g != nil && g.Sig().Results().Len() == 2 && typeStr(g.Sig().Results().At(0).Type()) == "ysgo.returnSignature" {
+				if g := w.byObj[callee]; g != nil && isOutputGate(g) {
 					gate = g
 				}
 			}
